@@ -9,6 +9,7 @@ import Driver.CodecD
 import Driver.EditorD
 import Driver.RepeatedD
 import Driver.TreeD
+import Driver.CommentsD
 /-
 One line in, one line out.  First word selects the model.
 Run: `lake env lean --run Driver/Main.lean < ops.txt`
@@ -35,6 +36,7 @@ def step (w : World) (line : String) : World × String :=
   | "E" :: rest => let (e, out) := editorStep w.editor rest; ({ w with editor := e }, out)
   | "R" :: rest => (w, repStep rest)
   | "T" :: rest => (w, treeStep rest)
+  | "M" :: rest => (w, commentsStep rest)
   | "V" :: rest => let (v, out) := viewsStep w.views rest; ({ w with views := v }, out)
   | ["reset"] => ({}, "ok")
   | _ => (w, "!bad-op")
